@@ -133,7 +133,9 @@ impl<State, B> Call<State, B> {
     }
 
     fn do_into_receive(self) -> Result<Call<RecvResponse, B>, Error> {
-        if !self.state.writer.is_ended() {
+        // A request without a body has nothing left to write for the body from the
+        // start, but its head must have gone out.
+        if self.state.phase.is_prelude() || !self.state.writer.is_ended() {
             return Err(Error::UnfinishedRequest);
         }
 
